@@ -4,6 +4,7 @@ C36 — property theorems about the string model of the replication path decisio
 -/
 import SwV.Model.C36
 import SwV.Spec.C36
+import SwV.Lemmas.C36
 import SwV.Gen.C36
 
 namespace SwV.Props.C36
@@ -230,5 +231,165 @@ theorem bridge_pins :
     SwV.Gen.C36.src_Replicate = "7bf4b7e35d42c8d6" ∧ SwV.Gen.C36.src_genProcessFunction = "11459a516e797fab" ∧
     SwV.Gen.C36.src_buildKey = "7cd07c41109d6a7c" ∧ SwV.Gen.C36.src_escapeKey = "6da2b6fc158f4d6a" ∧
     SwV.Gen.C36.src_Child = "b20f273dc7210176" ∧ SwV.Gen.C36.src_Join = "4f2a33a966f6ce1f" := by decide
+
+/-! ## the mapped key, component-wise (`util.Join` / `buildKey` read as a path-component computation)
+
+`InsideStr src p` (Lemmas/C36.lean) = the code's string test `strings.HasPrefix(p, src)` PLUS the boundary condition
+(source path ends in '/', or p = src, or the next character of p is '/').  Accepted paths without the boundary
+condition are exactly the recorded sibling-prefix findings (`*/replicates-sibling-of-source-dir`,
+`genProcessFunction/treats-sibling-as-inside-on-rename`); the remaining hypotheses of `SyncClear` name the other
+findings (first guard on the event directory: `…/ignores-rename-into-source-dir`, `…/trailing-slash-source-ignores-top-level`;
+new parent inside: `…/panics`). -/
+
+open SwV.Lemmas.C36
+
+/-- `util.Join`, component-wise, for ALL argument lists: the components of the parts in order
+    (empty parts, doubled and trailing slashes vanish) -/
+theorem join_is_component_concat (parts : List Str) : comps (join parts) = parts.flatMap comps := comps_join parts
+
+/-- MAPPED KEY (Replicator.Replicate): for every key inside the source directory the sink key is
+    `sinkDir ⧸ [date] ⧸ (key relative to the source directory)`, and the sink calls are exactly those of the event kind -/
+theorem mapped_key_exact_partial (src snk : Str) (isFiler incr found fromOther : Bool) (key : Str)
+    (old new : Option Bool) (np : Str) (hin : InsideStr src key) (hf : (fromOther && isFiler) = false) :
+    ∃ k, comps k = mappedComps src snk incr key ∧
+      replicate src snk isFiler incr found fromOther key old new np =
+        (match old, new with
+         | some d, none => [.del k d true]
+         | none, some _ => [.create k]
+         | none, none => []
+         | some d, some _ => if found then [.update k np] else [.update k np, .del k d false, .create k]) := by
+  refine ⟨join [snk, dateKey incr, key.drop src.length], comps_mapped snk incr hin, ?_⟩
+  unfold replicate
+  simp only [hf, hin.1, Bool.false_eq_true, if_false, Bool.not_true]
+  cases old <;> cases new <;> rfl
+
+example : InsideStr "/data".toList "/data/d/x".toList ∧ InsideStr "/data/".toList "/data/x".toList ∧
+    InsideStr "/".toList "/x".toList ∧ ¬ InsideStr "/data".toList "/data2/x".toList := by decide
+
+/-- … hence the model passes the specification's judge on every inside event that is not filtered -/
+theorem replicate_realises_spec_partial (src snk : Str) (isFiler incr found fromOther : Bool) (key : Str)
+    (old new : Option Bool) (np : Str) (hin : InsideStr src key) (hf : (fromOther && isFiler) = false) :
+    replJudge src snk incr false key old new (replicate src snk isFiler incr found fromOther key old new np) = none := by
+  obtain ⟨k, hk, hcalls⟩ := mapped_key_exact_partial src snk isFiler incr found fromOther key old new np hin hf
+  rw [hcalls]
+  unfold replJudge
+  by_cases hroot : atRoot src key = true
+  · simp [hroot]
+  · simp only [hroot, inside_of_insideStr hin, Bool.false_eq_true, if_false, Bool.not_true]
+    cases old <;> cases new <;> (try cases found) <;> simp [callKeyComps, hk]
+
+/-- the events of filer.sync / filer.backup on which path strings and path components agree -/
+def SyncClear (src : Str) (incr : Bool) (dir : Str) (old new : Option (Bool × Str)) (np : Str) : Prop :=
+  hasPrefix dir src = true ∧
+  (∀ o, old = some o → InsideStr src (child dir o.2)) ∧
+  (∀ n, new = some n → InsideStr src (child np n.2) ∨ OutsideStr src (child np n.2)) ∧
+  (∀ o n, old = some o → new = some n → InsideStr src (child np n.2) → incr = false → InsideStr src np)
+
+/-- MAPPED KEY (genProcessFunction / buildKey): create, delete, update and BOTH halves of a rename.  On a clear
+    event the process function does not panic and its sink calls realise the mirror specification: the delete /
+    create / update keys (and the new parent of a rename) are `target ⧸ [date] ⧸ (path relative to source)`;
+    a rename out of the source directory deletes the mapped old key (non-incremental sinks). -/
+theorem mapped_key_exact_sync_partial (src tgt : Str) (incr found : Bool) (dir : Str) (old new : Option (Bool × Str))
+    (np : Str) (h : SyncClear src incr dir old new np) :
+    ∃ cs, syncEv src tgt incr found dir old new np = some cs ∧
+      realises (expectSync src tgt incr (old.map fun o => child dir o.2) (new.map fun n => child np n.2) np) cs = true := by
+  obtain ⟨hdir, hold, hnew, hnp⟩ := h
+  cases old with
+  | none =>
+    cases new with
+    | none => exact ⟨[], by simp [syncEv, hdir], by simp [expectSync, realises]⟩
+    | some n =>
+      rcases hnew n rfl with hin | hout
+      · refine ⟨[.create (buildKey src tgt incr (child np n.2))], by simp [syncEv, hdir, hin.1], ?_⟩
+        simp [expectSync, inside_of_insideStr hin, realises, comps_buildKey tgt incr hin]
+      · refine ⟨[], by simp [syncEv, hdir, not_prefix_of_outsideStr hout], ?_⟩
+        simp [expectSync, hout.1, realises]
+  | some o =>
+    have hino := hold o rfl
+    cases new with
+    | none =>
+      refine ⟨[.del (buildKey src tgt incr (child dir o.2)) o.1 true], by simp [syncEv, hdir, hino.1], ?_⟩
+      simp [expectSync, inside_of_insideStr hino, realises, comps_buildKey tgt incr hino]
+    | some n =>
+      rcases hnew n rfl with hin | hout
+      · cases incr with
+        | true =>
+          refine ⟨[.create (buildKey src tgt true (child np n.2))], by simp [syncEv, hdir, hino.1, hin.1], ?_⟩
+          simp [expectSync, inside_of_insideStr hino, inside_of_insideStr hin, realises, comps_buildKey tgt true hin]
+        | false =>
+          have hnpi := hnp o n rfl rfl hin rfl
+          have hlen : ¬ np.length < src.length := by
+            have := hnpi.1
+            simp only [hasPrefix, List.isPrefixOf_iff_prefix] at this
+            have := this.length_le
+            omega
+          cases found with
+          | true =>
+            refine ⟨[.update (join [tgt, (child dir o.2).drop src.length]) (join [tgt, np.drop src.length])],
+              by simp [syncEv, hdir, hino.1, hin.1, hlen], ?_⟩
+            simp [expectSync, inside_of_insideStr hino, inside_of_insideStr hin, realises,
+              comps_mapped_plain tgt hino, comps_mapped_plain tgt hnpi]
+          | false =>
+            refine ⟨[.update (join [tgt, (child dir o.2).drop src.length]) (join [tgt, np.drop src.length]),
+                .del (join [tgt, (child dir o.2).drop src.length]) o.1 false,
+                .create (buildKey src tgt false (child np n.2))],
+              by simp [syncEv, hdir, hino.1, hin.1, hlen], ?_⟩
+            simp [expectSync, inside_of_insideStr hino, inside_of_insideStr hin, realises,
+              comps_mapped_plain tgt hino, comps_mapped_plain tgt hnpi, comps_buildKey tgt false hin]
+      · have hnp' := not_prefix_of_outsideStr hout
+        cases incr with
+        | true =>
+          refine ⟨[], by simp [syncEv, hdir, hino.1, hnp'], ?_⟩
+          simp [expectSync, inside_of_insideStr hino, hout.1, realises]
+        | false =>
+          refine ⟨[.del (buildKey src tgt false (child dir o.2)) o.1 true], by simp [syncEv, hdir, hino.1, hnp'], ?_⟩
+          simp [expectSync, inside_of_insideStr hino, hout.1, realises, comps_buildKey tgt false hino]
+
+/-- a rename inside the watched tree satisfies the hypotheses (and so do its create / delete halves) -/
+example : SyncClear "/data".toList false "/data/d".toList (some (false, "x".toList)) (some (false, "y".toList)) "/data/e".toList := by
+  refine ⟨by decide, ?_, ?_, ?_⟩
+  · intro o ho; cases ho; decide
+  · intro n hn; cases hn; exact Or.inl (by decide)
+  · intro o n ho hn _ _; decide
+
+/-- … hence the judge of the correspondence check accepts the model on every clear event -/
+theorem sync_realises_spec_partial (src tgt : Str) (incr found : Bool) (dir : Str) (old new : Option (Bool × Str))
+    (np : Str) (h : SyncClear src incr dir old new np) :
+    syncJudge src tgt incr (old.map fun o => child dir o.2) (new.map fun n => child np n.2) np
+      (syncEv src tgt incr found dir old new np) = none := by
+  obtain ⟨cs, hcs, hre⟩ := mapped_key_exact_sync_partial src tgt incr found dir old new np h
+  rw [hcs]
+  unfold syncJudge
+  split
+  · rfl
+  · simp [hre]
+
+/-- OUTSIDE IS IGNORED (component-wise form): an event all of whose paths are outside the source directory by
+    components — and are not sibling-prefixes of it — produces no sink call, for both entry points -/
+theorem outside_ignored_partial (src tgt : Str) (incr found : Bool) (dir : Str) (old new : Option (Bool × Str)) (np : Str)
+    (hold : ∀ o, old = some o → OutsideStr src (child dir o.2))
+    (hnew : ∀ n, new = some n → OutsideStr src (child np n.2)) :
+    syncEv src tgt incr found dir old new np = some [] := by
+  unfold syncEv
+  by_cases hdir : hasPrefix dir src = true
+  · simp only [hdir, Bool.not_true, Bool.false_eq_true, if_false]
+    cases old with
+    | none =>
+      cases new with
+      | none => rfl
+      | some n => simp [not_prefix_of_outsideStr (hnew n rfl)]
+    | some o =>
+      cases new with
+      | none => simp [not_prefix_of_outsideStr (hold o rfl)]
+      | some n => simp [not_prefix_of_outsideStr (hold o rfl), not_prefix_of_outsideStr (hnew n rfl)]
+  · simp [hdir]
+
+theorem outside_ignored_replicate_partial (src snk : Str) (isFiler incr found fromOther : Bool) (key : Str)
+    (old new : Option Bool) (np : Str) (hout : OutsideStr src key) :
+    replicate src snk isFiler incr found fromOther key old new np = [] :=
+  ignores_non_prefix _ _ _ _ _ _ _ _ _ _ (not_prefix_of_outsideStr hout)
+
+example : OutsideStr "/data".toList "/dat/x".toList ∧ OutsideStr "/data".toList "/other/data/x".toList ∧
+    ¬ OutsideStr "/data".toList "/data2/x".toList := by decide
 
 end SwV.Props.C36
